@@ -148,6 +148,11 @@ def cases(tier, seed):
         for pt in SEL_POINTS:
             for how in ("literal", "symbol"):
                 out.append({"form": "selection", "fn": si, "pt": pt, "how": how})
+    # points with components of very small and fairly large magnitude (the step of a numeric derivative must not depend on them)
+    for fi in range(len(SCALE_FNS)):
+        for pt in SCALE_POINTS:
+            for mform in ("ag", "nabla"):
+                out.append({"form": "scale", "fn": fi, "pt": pt, "mform": mform})
     n += len(out)
     tries = 0
     while len(out) < n and tries < n * 30:
@@ -198,6 +203,57 @@ def init_shard(tier, seed):
 MAT_FNS = [("{+/,/x*x}", lambda m: 2 * m), ("{+/,/x^3}", lambda m: 3 * m * m), ("{+/,/x}", lambda m: m * 0 + 1.0), ("{+/,/(x*x)+2.0*x}", lambda m: 2 * m + 2.0)]
 MAT_POINTS = ["[[0.5 1.5] [2.0 0.7]]", "[[0.5 1.5 1.2] [2.0 0.7 1.5]]", "+[[0.5 1.5 1.2] [2.0 0.7 1.5]]", "|[[0.5 1.5] [2.0 0.7] [1.2 1.2]]",
               "+[[0.5 1.5] [2.0 0.7]]", "[[0.5 1.5] [2.0 0.7] [1.2 1.2]]@[2 0]", "+|[[0.5 1.5 1.2] [2.0 0.7 1.5]]", "[[1 2] [3 4]]", "+[[1 2 3] [4 5 6]]"]
+
+
+SCALE_FNS = [("{(x*x)+x+1}", lambda v: 2 * v + 1, True), ("{+/(x*x)+x}", lambda v: 2 * v + 1, False), ("{+/(3*x)+x^3}", lambda v: 3 + 3 * v * v, False),
+             ("{(x^3)+2*x}", lambda v: 3 * v * v + 2, True)]
+SCALE_POINTS = ["0.0000001", "0.000003", "-0.0000002", "1000.0", "[0.0000001 0.5 2.0]", "[0.000003 0.0000001]", "[-0.0000002 1.5]", "[250.0 0.00001]", "0.00001"]
+
+
+def _run_scale(case, res):
+    import numpy as np
+    cnt = res["counters"]
+    ftext, grad, scalar_ok = SCALE_FNS[case["fn"]]
+    ptext, form = case["pt"], case["mform"]
+    is_vec = ptext.startswith("[")
+    if is_vec == scalar_ok and not (is_vec and not scalar_ok):
+        if is_vec and scalar_ok:
+            return            # the scalar bodies are not folds: vectors are given to the +/ bodies only
+    if not is_vec and not scalar_ok:
+        return
+    expr = ("f:>pp" if form == "ag" else "pp∇f")
+    show = {"program": "f::%s; pp::%s; %s" % (ftext, ptext, expr)}
+    res["show"] = show
+    res["key"] = show["program"]
+    for backend in (None, "torch"):
+        name = backend or "numpy"
+        engine = "autograd" if (name == "torch" and form == "ag") else "numeric"
+        if name == "torch" and engine == "numeric":
+            continue               # the float32 numeric path on torch is a listed finding
+        k = kl.new(backend)
+        kl.ev(k, "f::" + ftext)
+        pv = kl.ev(k, "pp::" + ptext)
+        if pv[0] != "ok":
+            continue
+        pt = np.array(_flat(canon(pv[1])), dtype=float)
+        exp = grad(pt)
+        r = kl.ev(k, expr)
+        if r[0] != "ok":
+            res["violations"].append({"sig": "scale-point|%s|%s|raises:%s" % (form, name, r[1]), "what": "%s on %s raised %s %s" % (show["program"], name, r[1], r[2][:80]), "detail": show})
+            continue
+        try:
+            got = np.array(_flat(canon(r[1])), dtype=float)
+        except Exception:
+            res["violations"].append({"sig": "scale-point|%s|%s|non-numeric" % (form, name), "what": "%s on %s returned %s" % (show["program"], name, brief(canon(r[1]))), "detail": show})
+            continue
+        res["nontrivial"] = True
+        cnt["gradients_compared_" + name] = cnt.get("gradients_compared_" + name, 0) + 1
+        cnt["scale_points"] = cnt.get("scale_points", 0) + 1
+        rel, ab = (1e-3, 1e-4) if engine == "autograd" else (1e-4, 1e-6)
+        mag = "tiny" if np.min(np.abs(pt)) < 1e-4 else "large"
+        if got.shape != exp.shape or not np.all(np.abs(got - exp) <= np.maximum(ab, rel * np.abs(exp))):
+            res["violations"].append({"sig": "scale-point|%s|%s|%s|%s" % (form, name, mag, "shape" if got.shape != exp.shape else "value"),
+                                      "what": "%s on %s returned %s, exact gradient %s" % (show["program"], name, got.tolist(), exp.tolist()), "detail": show})
 
 
 SEL_FNS = [("{x}", lambda n: [[1.0 if i == j else 0.0 for j in range(n)] for i in range(n)]),
@@ -381,6 +437,9 @@ def run_case(ctx, case):
     cnt = res["counters"]
     if case.get("form") == "matrix":
         _run_matrix(case, res)
+        return res
+    if case.get("form") == "scale":
+        _run_scale(case, res)
         return res
     if case.get("form") == "selection":
         _run_selection(case, res)
